@@ -6,9 +6,9 @@ mkdir -p /tmp/benign
 run() { # name check sed-expression file
   D=$(mktemp -d /tmp/mutrepo_XXXX); git -C /repo archive HEAD src | tar -x -C "$D"; cp /repo/src/easynetwork/version.py $D/src/easynetwork/
   sed -i "$3" $D/src/easynetwork/$4
-  cp evidence/$2.json /tmp/benign/ev.bak
-  VERIF_REPO=$D timeout 1500 /venv/bin/python -m vf.check $2 --tier quick > /tmp/benign/$1.log 2>&1; rc=$?
-  cp /tmp/benign/ev.bak evidence/$2.json
+  E=$(mktemp -d /tmp/mutev_XXXX)
+  VERIF_EVIDENCE_DIR=$E VERIF_REPO=$D timeout 2400 /venv/bin/python -m vf.check $2 --tier quick > /tmp/benign/$1.log 2>&1; rc=$?
+  rm -rf $E
   echo "$1 -> $2 exit=$rc violations=$(grep -c '^VIOLATION' /tmp/benign/$1.log)"
   rm -rf $D
 }
@@ -25,3 +25,9 @@ run adapter_transport_renamed04 C04 's/__transport\b/__asyncio_transport/g'     
 run client_sendlock_renamed     C12 's/__send_lock\b/__sending_lock/g'           clients/async_tcp.py
 run client_sendlock_renamed14   C14 's/__send_lock\b/__sending_lock/g'           clients/async_tcp.py
 run udp_client_endpoint_renamed C05 's/__endpoint\b/__ep/g'                      clients/async_udp.py
+run dgram_listener_flow_renamed C20 's/__write_flow/__flow/g'                    lowlevel/api_async/backend/_asyncio/datagram/listener.py
+run dgram_endpoint_closed_renamed C20 's/__closed\b/__close_waiter/g'            lowlevel/api_async/backend/_asyncio/datagram/endpoint.py
+run tcpclient_lock_renamed      C11 's/__receive_lock/__recv_lock/g'             clients/tcp.py
+run server_client_lock_renamed  C17 's/__send_lock\b/__sending_lock/g'           servers/async_tcp.py
+run server_client_lock_renamed14 C14 's/__send_lock\b/__sending_lock/g'          servers/async_tcp.py
+run stream_server_is_closing    C15 's/client_is_closing/client_closing_test/g'  servers/misc.py
